@@ -34,8 +34,10 @@ def generate(rng, tier):
             g["equal-aspect"].append("FIT %s %s" % (kind, " ".join(C.fh(v) for v in [0.0, 0.0, w, h, w * k, h * k, ax, ay])))
         if rng.below(20) == 0:
             g["size"].append("FIT size %s" % " ".join(C.fh(v) for v in vb))
-        if rng.below(40) == 0:
-            w2, h2, dx2, dy2 = pos(rng, True), pos(rng, True), pos(rng, True), pos(rng, True)
+        if rng.below(20) == 0:
+            e = rng.choice([-80, -76, -60, 60, 66, 70])
+            m = lambda: (1 + rng.below(1 << 10) / 1024.0) * 2.0 ** (e + rng.range(-2, 2))
+            w2, h2, dx2, dy2 = m(), m(), m(), m()
             g["extreme"].append("FIT %s %s" % (kind, " ".join(C.fh(v) for v in [0.0, 0.0, w2, h2, dx2, dy2, ax, ay])))
     return g
 
